@@ -86,6 +86,7 @@ PLin(a) ==
     /\ Level = "P" /\ st[a].pc = "started"
     /\ LET o == [op |-> st[a].op, n |-> st[a].n, v |-> st[a].v] IN
        CASE o.op = "lookup"  -> st' = Done(a, "ok", pact[o.n]) /\ UNCHANGED <<pact, plast>>
+         [] o.op = "badprepare" -> st' = Done(a, "fail", 0) /\ UNCHANGED <<pact, plast>>
          [] o.op = "commit"  -> \/ /\ plast[o.n] # None
                                    /\ pact' = PAfter(pact, plast, o, "ok") /\ st' = Done(a, "ok", 0) /\ UNCHANGED plast
                                 \/ st' = Done(a, "fail", 0) /\ UNCHANGED <<pact, plast>>
@@ -110,6 +111,8 @@ IStep(a) ==
          [] s.op = "prepare" /\ s.pc = "p3" -> /\ gen' = [gen EXCEPT ![1 - s.c] = [s.snap EXCEPT ![s.n] = s.v]]           \* m.namespaces[other] = new
                                                /\ st' = Goto(a, "p4") /\ UNCHANGED <<idx, flag>>
          [] s.op = "prepare" /\ s.pc = "p4" -> flag' = TRUE /\ st' = Done(a, "ok", 0) /\ UNCHANGED <<idx, gen>>          \* reloadPrepared.Set(true)
+            \* ReloadNamespacePrepare with a configuration that NewNamespace rejects: returns before any assignment
+         [] s.op = "badprepare" -> st' = Done(a, "fail", 0) /\ UNCHANGED <<idx, gen, flag>>
             \* ReloadNamespaceCommit
          [] s.op = "commit" /\ s.pc = "started" -> IF flag THEN flag' = FALSE /\ st' = Goto(a, "c2") /\ UNCHANGED <<idx, gen>>   \* CompareAndSwap(true,false)
                                                    ELSE st' = Done(a, "fail", 0) /\ UNCHANGED <<idx, gen, flag>>
